@@ -305,8 +305,13 @@ def check_case(case):
             crop.sow_combos(gc, constants=sc,
                             shuffle=shuffle, verbosity=0, **skw)
         else:
-            crop.sow_combos(copy.deepcopy(dcombos),
-                            cases=[dict(zip(fn_args, c)) for c in dcases],
+            mc = [dict(zip(fn_args, c)) for c in dcases]
+            form = core.pick([n, mode, req, shuffle, const, "mixform"], 3)
+            if len(mc) == 1 and form:
+                mc = mc[0]            # a single case as a bare mapping
+            elif form == 2:
+                mc = (c for c in mc)  # a one-shot iterator of cases
+            crop.sow_combos(copy.deepcopy(dcombos), cases=mc,
                             constants=sc, shuffle=shuffle, verbosity=0, **skw)
 
     sow()
